@@ -128,6 +128,39 @@ func rangeCategory(id int) int {
 	return 0
 }
 
+// rangeTypes: the product families (veproduct.Type values) of each id block, from the id assignment the table follows:
+// 0x02xx BMV-70x; 0xA38x the smart monitors (BMV Smart, SmartShunt); 0x03xx BlueSolar; 0xA0xx BlueSolar/SmartSolar MPPT;
+// 0xA1xx their VE.Can variants; 0xA2xx Phoenix Inverter (Smart); 0xA34x Phoenix Smart IP43 Charger
+func rangeTypes(id int) []int {
+	hi := id >> 8
+	switch {
+	case hi == 0x02:
+		return []int{1}
+	case id >= 0xA380 && id <= 0xA38F:
+		return []int{2, 10}
+	case hi == 0x03:
+		return []int{3}
+	case hi == 0xA0:
+		return []int{3, 4}
+	case hi == 0xA1:
+		return []int{5, 6}
+	case hi == 0xA2:
+		return []int{7, 8}
+	case id >= 0xA340 && id <= 0xA34F:
+		return []int{9}
+	}
+	return nil
+}
+
+func typeFitsRange(id int, t veproduct.Type) bool {
+	for _, x := range rangeTypes(id) {
+		if x == int(t) {
+			return true
+		}
+	}
+	return false
+}
+
 func designation(model string) (int, int, bool) {
 	i := 0
 	for i < len(model) && model[i] >= '0' && model[i] <= '9' {
@@ -216,6 +249,9 @@ func suiteC13pass(s *Sink, mut string) {
 			if t.IsInverter() {
 				cats++
 				cat = 3
+			}
+			if !typeFitsRange(id, p.Type()) {
+				viol(fmt.Sprintf("type %d (%s) is not one of the product families %v of its id block", p.Type(), p.Type().String(), rangeTypes(id)))
 			}
 			if cats != 1 || cat != rangeCategory(id) {
 				viol(fmt.Sprintf("is in %d categories (BMV/solar/inverter), category %d, id range demands %d", cats, cat, rangeCategory(id)))
@@ -338,6 +374,39 @@ func suiteC14(rng *Rng, thorough bool, s *Sink) {
 			}
 		}
 		s.Line("typed", "ET "+e.name, strings.Join(typed, ","))
+		// the map is what the caller sees: after a caller has edited the map it was handed (a key deleted, a name
+		// changed, a key added) construction must still agree with the map the factory hands out now
+		if len(ks) > 0 {
+			edited := e.f.IntToStringMap()
+			delete(edited, ks[len(ks)-1])
+			edited[ks[0]] = "edited by a caller"
+			for v := 0; v < 300; v++ {
+				if _, isKey := m[v]; !isKey {
+					edited[v] = "added by a caller"
+					break
+				}
+			}
+			m2 := e.f.IntToStringMap()
+			var ents2 []string
+			ks2 := make([]int, 0, len(m2))
+			for k := range m2 {
+				ks2 = append(ks2, k)
+			}
+			sort.Ints(ks2)
+			for _, k := range ks2 {
+				ents2 = append(ents2, fmt.Sprintf("%d=%s", k, hexS(m2[k])))
+			}
+			s.Line("map-after-edit", "EM "+e.name+" mut:a-caller-edited-an-earlier-result", strings.Join(ents2, ","))
+			for v := -2; v <= 257; v++ {
+				en, err := e.f.NewEnum(v)
+				name, isKey := m2[v]
+				op := fmt.Sprintf("EN %s %d mut:a-caller-edited-an-earlier-map", e.name, v)
+				out := enumOut(en, err)
+				if isKey != (err == nil) || (err == nil && en.String() != name) {
+					s.Violate(op, out, fmt.Sprintf("%s: after a caller edited an earlier IntToStringMap() result, the map says key=%v name=%q for %d but construction gives %s", e.name, isKey, name, v, out))
+				}
+			}
+		}
 	}
 }
 
@@ -466,7 +535,20 @@ func suiteC15(rng *Rng, thorough bool, s *Sink) {
 				s.Line("render", op, "err:"+errKind(err))
 				continue
 			}
-			first := val.CommaString()
+			first, panicked := "", false
+			func() {
+				defer func() {
+					if r := recover(); r != nil {
+						panicked = true
+					}
+				}()
+				first = val.CommaString()
+			}()
+			if panicked {
+				s.Line("render", op, "PANIC")
+				s.Violate(op, "PANIC", fmt.Sprintf("%s raw=0x%X: rendering the value panics", fl.name, raw))
+				continue
+			}
 			for k := 1; k < reps; k++ {
 				if again := val.CommaString(); again != first {
 					s.Violate(op, hexS(again), fmt.Sprintf("%s raw=0x%X: rendering #%d %q differs from rendering #0 %q", fl.name, raw, k, again, first))
@@ -581,6 +663,9 @@ func suiteC12(s *Sink) {
 		if cl == "" {
 			s.Violate(op, st, fmt.Sprintf("product 0x%04X (%q, type %d) is not of a supported class but got err=nil and %d registers", id, p.String(), p.Type(), rl.Len()))
 			continue
+		}
+		if !typeFitsRange(id, p.Type()) {
+			s.Violate(op, st, fmt.Sprintf("product 0x%04X (%q) gets the list of class %s, but its type %d is not one of the product families %v of its id block", id, p.String(), cl, p.Type(), rangeTypes(id)))
 		}
 		names, addrs := map[string]bool{}, map[uint16]bool{}
 		for _, r := range rl.GetRegisters() {
@@ -797,9 +882,57 @@ func runRegOps(pool []poolItem, ops []string) (string, []string) {
 	ref := [5][]poolItem{}
 	var viol []string
 	var snaps []regSnapshot
+	var restRegs []veregister.NumberRegisterStruct // the caller's slice behind "p": its tail is appended by "q"
+	var restRef []poolItem
 	for opIdx, op := range ops {
 		kv := strings.SplitN(op, "=", 2)
 		switch kv[0] {
+		case "g":
+			// an observation in the middle of the history (the combined view must be right every time it is asked for)
+			var got []string
+			for _, r := range rl.GetRegisters() {
+				got = append(got, shortReg(kindOf(r), r))
+			}
+			var all []poolItem
+			for k := 1; k <= 4; k++ {
+				all = append(all, ref[k]...)
+			}
+			var st []poolItem
+			for _, it := range all {
+				j := len(st)
+				for j > 0 && st[j-1].reg().Sort() > it.reg().Sort() {
+					j--
+				}
+				st = append(st, poolItem{})
+				copy(st[j+1:], st[j:])
+				st[j] = it
+			}
+			var want []string
+			for _, it := range st {
+				want = append(want, shortReg(it.kind, it.reg()))
+			}
+			if strings.Join(got, ",") != strings.Join(want, ",") {
+				viol = append(viol, fmt.Sprintf("combined view after operation %d is [%s], the stable ascending sort is [%s]", opIdx, strings.Join(got, ","), strings.Join(want, ",")))
+			}
+		case "p":
+			// the caller owns a slice s of number registers and appends its head s[:c]... now, its tail s[c:]... later ("q");
+			// whatever the list does in between, the tail the caller appends is the caller's data
+			parts := strings.SplitN(kv[1], "@", 2)
+			c, _ := strconv.Atoi(parts[1])
+			var sl []veregister.NumberRegisterStruct
+			var items []poolItem
+			for _, is := range strings.Split(parts[0], ",") {
+				i, _ := strconv.Atoi(is)
+				sl = append(sl, *pool[i].n)
+				items = append(items, pool[i])
+			}
+			rl.AppendNumberRegisterStruct(sl[:c]...)
+			ref[1] = append(ref[1], items[:c]...)
+			restRegs, restRef = sl[c:], items[c:]
+		case "q":
+			rl.AppendNumberRegisterStruct(restRegs...)
+			ref[1] = append(ref[1], restRef...)
+			restRegs, restRef = nil, nil
 		case "k":
 			// keep a copy of the list value as it is now; the operations that follow are applied to `rl` only
 			// and must leave what the copy holds untouched
@@ -959,6 +1092,7 @@ func suiteC16(rng *Rng, thorough bool, s *Sink) {
 		fmt.Sprintf("a=%d,%d", firstOfKind(1, 3), firstOfKind(2, 1)),
 		"f=kind:1", "f=sortpar:0", "n=ProductId", "n=" + pool[firstOfKind(2, 0)].reg().Name() + ",Nope",
 		"k", "s=1.-9223372036854775808.lo", "s=2.9223372036854775807.hi", "s=1.-1.m",
+		"g", fmt.Sprintf("p=%d,%d,%d@1", firstOfKind(1, 0), firstOfKind(1, 1), firstOfKind(1, 2)), "q",
 	}
 	maxLen := 3
 	if thorough {
@@ -994,7 +1128,18 @@ func suiteC16(rng *Rng, thorough bool, s *Sink) {
 		}
 		var seq []string
 		for k := 0; k < l; k++ {
-			switch rng.Intn(12) {
+			switch rng.Intn(15) {
+			case 12:
+				seq = append(seq, "g")
+			case 13:
+				var idx []string
+				n := 2 + rng.Intn(4)
+				for j := 0; j < n; j++ {
+					idx = append(idx, strconv.Itoa(firstOfKind(1, rng.Intn(20))))
+				}
+				seq = append(seq, fmt.Sprintf("p=%s@%d", strings.Join(idx, ","), rng.Intn(n+1)))
+			case 14:
+				seq = append(seq, "q")
 			case 10:
 				seq = append(seq, "k")
 			case 11:
